@@ -97,5 +97,9 @@ func BinSearch(lo, hi uint64, executable func(uint64) (bool, *MsgEthereumTxRespo
 // EffectiveGasPrice computes the effective gas price based on eip-1559 rules
 // `effectiveGasPrice = min(baseFee + tipCap, feeCap)`
 func EffectiveGasPrice(baseFee, feeCap, tipCap *big.Int) *big.Int {
+	// without a base fee (London not active) the price is the fee cap, as go-ethereum's AsMessage computes it
+	if baseFee == nil {
+		return new(big.Int).Set(feeCap)
+	}
 	return math.BigMin(new(big.Int).Add(tipCap, baseFee), feeCap)
 }
